@@ -302,7 +302,12 @@ func (fg *FnGen) dispatchCall(fr *Frame, site ssa.Instruction, c *ssa.CallCommon
 }
 
 func (fg *FnGen) onStack(fr *Frame, f *ssa.Function) bool {
-	return strings.Contains(fr.prefix, "~"+f.Name()+"~") || (fr.fn == f)
+	for _, g := range fr.stack {
+		if g == f {
+			return true
+		}
+	}
+	return fr.fn == f
 }
 
 func (fg *FnGen) inlineable(f *ssa.Function, depth int) bool {
@@ -348,6 +353,7 @@ func (fg *FnGen) inlineable(f *ssa.Function, depth int) bool {
 func (fg *FnGen) inline(fr *Frame, f *ssa.Function, args []*Term, st *State, reach *Term, name string) ([]*Term, *State) {
 	fg.fresh++
 	sub := fg.newFrame(f, fr.depth+1, fmt.Sprintf("%s%s#%d~%s~", fr.prefix, name, fg.fresh, f.Name()))
+	sub.stack = append(append([]*ssa.Function{}, fr.stack...), f)
 	for i, p := range f.Params {
 		if i < len(args) {
 			sub.vals[p] = args[i]
